@@ -95,8 +95,6 @@ Section C04.
     kg_kw : c_args c = [];
     kg_kws : distinct (kw_names c) = true;                      (* keyword arguments form a dict *)
     kg_sig : sig_base f = true;
-    (* no NAME of a positional-only parameter is used as a keyword (it would land in **kwargs: finding posonly-name-as-keyword) *)
-    kg_posonly : forallb (fun p => negb (match p_kind p with PosOnly => true | _ => false end && mem (p_name p) (kw_names c))) (f_params f) = true;
     kg_walk : params_without_self f = declared f;              (* the receiver is recognised (K2: receiver name, classmethod decorated directly) *)
     kg_recv : recv_shape f c;
     kg_ann : forall p, In p (declared f) -> p_ann p <> None;
@@ -104,7 +102,10 @@ Section C04.
     kg_strip : c_recv c <> [] -> strips_first pc f = true;
     kg_one : List.length (c_recv c) <= 1;
     kg_probe : forall inst, instance_of f c = Ok inst -> clazz_probe f c inst = Ok tt;   (* K2: '@staticmethod' in the text *)
-    kg_varpos : has_varpos (f_params f) = true -> c_recv c = [] \/ is_instance_method f = true;  (* a receiver the first pass does not count is checked against the annotation of *args *)
+    (* the receiver the wrapper got is the one the first pass counts - or positional values play no role at all
+       (otherwise the receiver is checked as the first positional value / against the annotation of *args) *)
+    kg_count : List.length (c_recv c) <= (if is_instance_method f then 1 else 0)
+               \/ (should_have_kwargs pc f = true /\ has_varpos (f_params f) = false);
     kg_same : bound_src f ++ call_pos pc f c = twin_pos c;       (* K7, K2: the undecorated callable gets the same receiver *)
   }.
 
@@ -144,14 +145,6 @@ Section C04.
       - rewrite Hr in Hb. simpl in Hb. exists b. split; [assumption|]. split; [auto|assumption].
     Qed.
 
-    (* a declared parameter that is given by keyword takes keywords *)
-    Lemma declared_kw_ok : forall p, In p (declared f) -> is_star p = false -> mem (p_name p) (kw_names c) = true -> takes_kw p = true.
-    Proof.
-      intros p Hp Hs Hm. destruct (declared_incl_base f p Hsig Hp) as [Hpf _].
-      pose proof (kg_posonly f c g) as Hpo. rewrite forallb_forall in Hpo. specialize (Hpo p Hpf). rewrite Hm in Hpo.
-      unfold takes_kw. unfold is_star, is_varpos, is_varkw in Hs. destruct (p_kind p); try discriminate; reflexivity.
-    Qed.
-
     Lemma supplied_in : forall p sl oa v, In p (declared f) ->
       In (p_name p, sl) b ->
       In (oa, v) (match sl with
@@ -172,12 +165,13 @@ Section C04.
     Qed.
 
     (* explicit keyword for a declared parameter *)
-    Lemma kw_supplied : forall p v, In p (declared f) -> is_star p = false ->
+    Lemma kw_supplied : forall p v, In p (declared f) -> is_star p = false -> takes_keyword p = true ->
       kw_get (p_name p) (c_kwargs c) = Some v -> exists a, p_ann p = Some a /\ accepts_intact a v.
     Proof.
-      intros p v Hp Hs Hk. destruct declared_binding as [b0 [Hb0 [Hincl Hd]]].
+      intros p v Hp Hs Htk0 Hk. destruct declared_binding as [b0 [Hb0 [Hincl Hd]]].
       destruct (bind_go_nil _ _ _ _ Hb0) as [-> _].
-      assert (Htk := declared_kw_ok p Hp Hs (kw_get_mem _ _ _ Hk)).
+      assert (Htk : takes_kw p = true).
+      { unfold takes_keyword in Htk0. unfold takes_kw. unfold is_star, is_varpos, is_varkw in Hs. destruct (p_kind p); try discriminate; reflexivity. }
       assert (Hin : In (p_name p, BOne (SKw (p_name p))) b).
       { apply Hincl. apply in_map_iff. exists p. split; [|assumption]. f_equal. unfold slot_nil.
         unfold takes_kw in Htk. unfold kw_names. rewrite (kw_get_mem _ _ _ Hk). destruct (p_kind p); try discriminate; reflexivity. }
@@ -188,18 +182,20 @@ Section C04.
 
     (* omitted but defaulted / required parameters are supplied *)
     Lemma default_supplied : forall p, In p (declared f) -> is_star p = false ->
-      kw_get (p_name p) (c_kwargs c) = None ->
+      takes_keyword p = false \/ kw_get (p_name p) (c_kwargs c) = None ->
       exists a d, p_ann p = Some a /\ p_default p = Some d /\ accepts_intact a d.
     Proof.
       intros p Hp Hs Hk. destruct declared_binding as [b0 [Hb0 [Hincl Hd]]].
       destruct (bind_go_nil _ _ _ _ Hb0) as [-> Hfill].
-      assert (Hm : mem (p_name p) (kw_names c) = false).
-      { destruct (mem (p_name p) (kw_names c)) eqn:E; [|reflexivity].
+      assert (Hm : takes_kw p = true -> mem (p_name p) (kw_names c) = false).
+      { intros Htk. destruct Hk as [Hk|Hk]; [unfold takes_keyword in Hk; unfold takes_kw in Htk; destruct (p_kind p); discriminate|].
+        destruct (mem (p_name p) (kw_names c)) eqn:E; [|reflexivity].
         destruct (kw_get_mem_some _ _ E) as [v Hv]. congruence. }
-      destruct (p_default p) as [d|] eqn:Ed; [|exfalso; now apply (Hfill p Hp Hs (fun _ => Hm))].
+      destruct (p_default p) as [d|] eqn:Ed; [|exfalso; now apply (Hfill p Hp Hs Hm)].
       assert (Hin : In (p_name p, BOne (SDefault (p_name p))) b).
       { apply Hincl. apply in_map_iff. exists p. split; [|assumption]. f_equal. unfold slot_nil.
-        unfold is_star, is_varpos, is_varkw in Hs. rewrite Hm. destruct (p_kind p); try discriminate; reflexivity. }
+        unfold is_star, is_varpos, is_varkw in Hs. unfold takes_kw in Hm. destruct (p_kind p); try discriminate; try reflexivity;
+          rewrite (Hm eq_refl); reflexivity. }
       destruct (Hsup (p_ann p) d) as [a [Ha Hacc]].
       { eapply supplied_in; [exact Hp|exact Hin|]. cbv beta iota. rewrite Ed. simpl. now left. }
       eauto.
@@ -234,28 +230,44 @@ Section C04.
       rewrite Hni. eauto.
     Qed.
 
-    (* first pass *)
-    Lemma pass_named_succeeds : forall ps idx st, incl ps (declared f) -> (forall p, In p ps -> is_star p = false) ->
-      exists tv', pass_named pc check consumes f c inst ps idx st =
-                  Ok {| a_tv := tv'; a_cons := a_cons st; a_checked := a_checked st ++ map p_name ps; a_idx := idx |}.
+    (* first pass: no positional value is looked at *)
+    Lemma Hoff : forall (p : param) idx, idx = (if is_instance_method f then 1 else 0) -> In p (declared f) -> is_star p = false ->
+      takes_positional p && negb (should_have_kwargs pc f) && Nat.ltb idx (List.length (wargs c)) = false.
     Proof.
-      induction ps as [|p ps IH]; intros idx st Hi Hs.
+      intros p idx -> _ _. destruct (kg_count f c g) as [Hl|[Hs _]].
+      - unfold wargs. rewrite (kg_kw f c g), app_nil_r.
+        replace (Nat.ltb (if is_instance_method f then 1 else 0) (List.length (c_recv c))) with false by (symmetry; apply Nat.ltb_ge; exact Hl).
+        now rewrite andb_false_r.
+      - rewrite Hs. simpl. now rewrite andb_false_r.
+    Qed.
+
+    Lemma pass_named_succeeds : forall ps st, incl ps (declared f) -> (forall p, In p ps -> is_star p = false) ->
+      exists tv', pass_named pc check consumes f c inst ps (if is_instance_method f then 1 else 0) st =
+                  Ok {| a_tv := tv'; a_cons := a_cons st; a_checked := a_checked st ++ map p_name (filter takes_keyword ps);
+                        a_idx := if is_instance_method f then 1 else 0 |}.
+    Proof.
+      induction ps as [|p ps IH]; intros st Hi Hs.
       - simpl. rewrite app_nil_r. exists (a_tv st). reflexivity.
       - assert (Hp : In p (declared f)) by (apply Hi; now left).
         assert (Hps : is_star p = false) by (apply Hs; now left).
         assert (Hi' : incl ps (declared f)) by (intros x Hx; apply Hi; now right).
         assert (Hs' : forall q, In q ps -> is_star q = false) by (intros q Hq; apply Hs; now right).
-        cbn [pass_named].
-        set (st1 := {| a_tv := a_tv st; a_cons := a_cons st; a_checked := a_checked st ++ [p_name p]; a_idx := a_idx st |}).
-        destruct (kw_get (p_name p) (c_kwargs c)) as [v|] eqn:Ek.
-        + destruct (kw_supplied p v Hp Hps Ek) as [a [Ha Hacc]]. rewrite Ha.
-          destruct (chk_accepts a v (SKw (p_name p)) st1 Hacc) as [tv1 E1]. rewrite E1. cbn [Exn.bind].
-          destruct (IH idx {| a_tv := tv1; a_cons := a_cons st1; a_checked := a_checked st1; a_idx := a_idx st1 |} Hi' Hs') as [tv2 E2].
-          rewrite E2. exists tv2. unfold st1. simpl. now rewrite <- app_assoc.
-        + destruct (default_supplied p Hp Hps Ek) as [a [d [Ha [Hd Hacc]]]]. rewrite Ha, Hd.
-          destruct (chk_accepts a d (SDefault (p_name p)) st1 Hacc) as [tv1 E1]. rewrite E1. cbn [Exn.bind].
-          destruct (IH idx {| a_tv := tv1; a_cons := a_cons st1; a_checked := a_checked st1; a_idx := a_idx st1 |} Hi' Hs') as [tv2 E2].
-          rewrite E2. exists tv2. unfold st1. simpl. now rewrite <- app_assoc.
+        cbn [pass_named]. rewrite (Hoff p _ eq_refl Hp Hps).
+        set (st1 := {| a_tv := a_tv st; a_cons := a_cons st;
+                       a_checked := if takes_keyword p then a_checked st ++ [p_name p] else a_checked st; a_idx := a_idx st |}).
+        assert (Hfin : forall tv1, exists tv', pass_named pc check consumes f c inst ps (if is_instance_method f then 1 else 0)
+                           {| a_tv := tv1; a_cons := a_cons st1; a_checked := a_checked st1; a_idx := a_idx st1 |} =
+                         Ok {| a_tv := tv'; a_cons := a_cons st; a_checked := a_checked st ++ map p_name (filter takes_keyword (p :: ps));
+                               a_idx := if is_instance_method f then 1 else 0 |}).
+        { intros tv1. destruct (IH {| a_tv := tv1; a_cons := a_cons st1; a_checked := a_checked st1; a_idx := a_idx st1 |} Hi' Hs') as [tv2 E2].
+          rewrite E2. exists tv2. unfold st1. simpl. destruct (takes_keyword p); simpl; [now rewrite <- app_assoc|reflexivity]. }
+        destruct (takes_keyword p) eqn:Etk; [destruct (kw_get (p_name p) (c_kwargs c)) as [v|] eqn:Ek|].
+        + destruct (kw_supplied p v Hp Hps Etk Ek) as [a [Ha Hacc]]. rewrite Ha.
+          destruct (chk_accepts a v (SKw (p_name p)) st1 Hacc) as [tv1 E1]. rewrite E1. cbn [Exn.bind]. apply Hfin.
+        + destruct (default_supplied p Hp Hps (or_intror Ek)) as [a [d [Ha [Hd Hacc]]]]. rewrite Ha, Hd.
+          destruct (chk_accepts a d (SDefault (p_name p)) st1 Hacc) as [tv1 E1]. rewrite E1. cbn [Exn.bind]. apply Hfin.
+        + destruct (default_supplied p Hp Hps (or_introl Etk)) as [a [d [Ha [Hd Hacc]]]]. rewrite Ha, Hd.
+          destruct (chk_accepts a d (SDefault (p_name p)) st1 Hacc) as [tv1 E1]. rewrite E1. cbn [Exn.bind]. apply Hfin.
     Qed.
 
     Lemma chk_all_succeeds : forall a l st, (forall v s, In (v, s) l -> accepts_intact a v) ->
@@ -300,12 +312,13 @@ Section C04.
     Lemma args_phase_succeeds : exists st, args_phase pc check consumes f c inst astate0 = Ok st /\ a_cons st = [].
     Proof.
       rewrite (args_phase_ref pc check consumes good). unfold run_pass. rewrite (kg_walk f c g).
-      destruct (pass_named_succeeds (filter (fun p => negb (is_star p)) (declared f)) (if is_instance_method f then 1 else 0) astate0)
+      destruct (pass_named_succeeds (filter (fun p => negb (is_star p)) (declared f)) astate0)
         as [tv1 E1].
       { intros x Hx. now apply filter_In in Hx as [Hx _]. }
       { intros p Hp. apply filter_In in Hp as [_ Hp]. now apply negb_true_iff in Hp. }
       rewrite E1. cbn [Exn.bind]. simpl a_checked.
-      set (st1 := {| a_tv := tv1; a_cons := a_cons astate0; a_checked := [] ++ map p_name (filter (fun p => negb (is_star p)) (declared f));
+      set (st1 := {| a_tv := tv1; a_cons := a_cons astate0;
+                     a_checked := [] ++ map p_name (filter takes_keyword (filter (fun p => negb (is_star p)) (declared f)));
                      a_idx := if is_instance_method f then 1 else 0 |}).
       (* second pass: no receiver in front of *args *)
       assert (E2 : exists tv2, pass_varpos check consumes f c inst (filter is_varpos (declared f)) st1 =
@@ -315,11 +328,10 @@ Section C04.
         - unfold pass_varpos. destruct (p_ann q) as [a|] eqn:Ea; [|exfalso; now apply (kg_ann f c g q Hq)].
           assert (Hnil : skipn (a_idx st1) (combine (wargs c) (wsrc c)) = []).
           { unfold wargs, wsrc, arg_srcs. rewrite (kg_kw f c g). simpl. rewrite !app_nil_r.
-            destruct (kg_varpos f c g) as [Hr|Hi].
-            - unfold has_varpos. apply existsb_exists. exists q. split; [|assumption]. now destruct (declared_incl_base f q Hsig Hq).
-            - rewrite Hr. simpl combine. apply skipn_nil.
-            - unfold st1. simpl a_idx. rewrite Hi. pose proof (kg_one f c g) as Hl.
-              destruct (c_recv c) as [|r [|r2 l]]; simpl in *; try reflexivity; lia. }
+            destruct (kg_count f c g) as [Hl|[_ Hnv]].
+            - unfold st1. simpl a_idx. apply skipn_all2. rewrite combine_length, map_length. lia.
+            - exfalso. assert (Hv : has_varpos (f_params f) = true); [|congruence].
+              unfold has_varpos. apply existsb_exists. exists q. split; [|assumption]. now destruct (declared_incl_base f q Hsig Hq). }
           rewrite Hnil. simpl. exists (a_tv st1). reflexivity. }
       destruct E2 as [tv2 E2]. rewrite E2. cbn [Exn.bind].
       set (st2 := {| a_tv := tv2; a_cons := a_cons st1; a_checked := a_checked st1; a_idx := a_idx st1 |}).
@@ -339,8 +351,9 @@ Section C04.
           - pose proof (recv_not_kw r rest Hrecv Hfull) as Hm. apply mem_false in Hm. apply Hm. rewrite Hrn.
             unfold kw_names. now apply (in_map fst) in Hin.
           - apply mem_false in Hnot. apply Hnot. unfold st2, st1. simpl.
-            apply in_map_iff. exists r. split; [assumption|]. apply filter_In. split; [assumption|].
-            unfold takes_kw in Hrk. unfold is_star, is_varpos, is_varkw. destruct (p_kind r); try discriminate; reflexivity. }
+            apply in_map_iff. exists r. split; [assumption|]. apply filter_In. split.
+            + apply filter_In. split; [assumption|]. unfold takes_kw in Hrk. unfold is_star, is_varpos, is_varkw. destruct (p_kind r); try discriminate; reflexivity.
+            + unfold takes_kw in Hrk. unfold takes_keyword. destruct (p_kind r); try discriminate; reflexivity. }
         rewrite E3. eexists. split; reflexivity.
     Qed.
   End Call.
@@ -426,15 +439,11 @@ Section C04.
   Theorem truth_kw_guards : forall f c, truth_guards f c -> kw_guards f c.
   Proof.
     intros f c t. pose proof (tg_recv f c t) as Hr. pose proof (tg_unbound f c t) as Hb.
-    pose proof (tg_sig f c t) as Hsig. pose proof Hsig as Hs0. unfold sig_ok in Hs0.
-    repeat (apply andb_true_iff in Hs0; destruct Hs0 as [Hs0 ?]). rename H0 into Hnoself.
+    pose proof (tg_sig f c t) as Hsig. pose proof (sig_ok_base f Hsig) as Hbase.
+    pose proof Hbase as Hs0. unfold sig_base in Hs0. apply andb_true_iff in Hs0 as [Hs0 _]. apply andb_true_iff in Hs0 as [_ Hnoself].
     assert (Hfull : full_params f = f_params f) by (unfold full_params, func_params; now rewrite Hb).
     assert (Hcm : is_class_method f = false) by (unfold is_class_method; now rewrite Hb).
     assert (Hst : is_static_method f = false) by exact (tg_text f c t).
-    destruct (sig_ok_base f Hsig) as [Hbase Hnp].
-    assert (Hpo : forallb (fun p => negb (match p_kind p with PosOnly => true | _ => false end && mem (p_name p) (kw_names c))) (f_params f) = true).
-    { apply forallb_forall. intros p Hp. unfold no_posonly in Hnp. rewrite forallb_forall in Hnp. specialize (Hnp p Hp).
-      destruct (p_kind p); try discriminate; reflexivity. }
     destruct (f_recv f) eqn:Erecv.
     - destruct Hr as [r [rest [x [Hps [Hn [Hk [Hrc [Htw Hm]]]]]]]].
       assert (Hdecl : declared f = rest) by (unfold declared; now rewrite Erecv, Hfull, Hps).
@@ -447,7 +456,7 @@ Section C04.
       + intros _. rewrite (strips_first_ref pc good), Hinst. reflexivity.
       + rewrite Hrc. simpl. lia.
       + intros inst _. unfold clazz_probe. rewrite Hcm, Hst. now destruct inst as [[]|].
-      + intros _. now right.
+      + left. rewrite Hinst, Hrc. simpl. lia.
       + unfold bound_src, call_pos. rewrite Hb, (drops_args_ref pc good), Hcm, Hst. simpl. unfold wsrc, twin_pos. now rewrite Hrc, Htw.
     - destruct Hr as [Hrc [Htw Hall]].
       assert (Hdecl : declared f = f_params f) by (unfold declared; now rewrite Erecv, Hfull).
@@ -462,7 +471,7 @@ Section C04.
       + intros H0. now rewrite Hrc in H0.
       + rewrite Hrc. simpl. lia.
       + intros inst _. unfold clazz_probe. rewrite Hcm, Hst. now destruct inst as [[]|].
-      + intros _. now left.
+      + left. rewrite Hrc. simpl. lia.
       + unfold bound_src, call_pos. rewrite Hb, (drops_args_ref pc good), Hcm, Hst. simpl. unfold wsrc, twin_pos. now rewrite Hrc, Htw.
   Qed.
 End C04.
